@@ -31,7 +31,7 @@ type symCase struct {
 func symFuncs() map[string]zygo.ZlispUserFunction {
 	all := zygo.AllBuiltinFunctions()
 	m := map[string]zygo.ZlispUserFunction{}
-	for _, k := range []string{"str2sym", "gensym", "==", "sym2str", "symnum"} {
+	for _, k := range []string{"str2sym", "gensym", "==", "sym2str", "symnum", "joinsym", "read"} {
 		if f, ok := all[k]; ok {
 			m[k] = f
 		}
@@ -39,9 +39,17 @@ func symFuncs() map[string]zygo.ZlispUserFunction {
 	return m
 }
 
+// newSymRoot: a root interpreter with a small function table plus the builders (var among them)
+func newSymRoot() *zygo.Zlisp {
+	root := zygo.NewZlispWithFuncs(symFuncs())
+	root.ImportPackageBuilder()
+	return root
+}
+
 // runSymCase executes ops on a fresh family and returns the events.
 func runSymCase(ops []symOp) (evs []any) {
-	root := zygo.NewZlispWithFuncs(symFuncs())
+	nv := 0
+	root := newSymRoot()
 	fam := []*zygo.Zlisp{root}
 	evs = append(evs, map[string]any{"op": "init", "n": len(root.VerifSymtab())})
 	defer func() {
@@ -82,6 +90,27 @@ func runSymCase(ops []symOp) (evs []any) {
 			} else {
 				evs = append(evs, map[string]any{"op": "fail", "m": o.M, "text": "str2sym", "out": projOutcome(env, out)})
 			}
+		case "varsym":
+			// a variable declared with the type symbol holds the symbol named by the empty string;
+			// other script routes to a symbol: quote, read, joinsym
+			nv++
+			var text string
+			switch o.Name {
+			case "var":
+				text = fmt.Sprintf("(var zvs%d symbol)\nzvs%d\n", nv, nv)
+			case "quote":
+				text = "(quote qa)\n"
+			case "read":
+				text = "(read \"qa\")\n"
+			default:
+				text = "(joinsym (quote q) (quote a))\n"
+			}
+			out := evalSafe(env, text)
+			if s, ok := out.Val.(*zygo.SexpSymbol); ok && out.Kind == "val" {
+				evs = append(evs, map[string]any{"op": "intern", "m": o.M, "name": s.Name(), "num": s.Number(), "asked": o.Name, "via": "script-" + o.Name})
+			} else {
+				evs = append(evs, map[string]any{"op": "fail", "m": o.M, "text": text, "out": projOutcome(env, out)})
+			}
 		case "sgensym":
 			text := "(gensym)\n"
 			if o.Name != "" {
@@ -112,7 +141,7 @@ func init() {
 		defer w.close()
 		// first record: the names every fresh root interpreter starts with
 		{
-			root := zygo.NewZlispWithFuncs(symFuncs())
+			root := newSymRoot()
 			tab := root.VerifSymtab()
 			names := make([]string, 0, len(tab))
 			for n := range tab {
@@ -147,6 +176,8 @@ func init() {
 				symOp{Op: "gensym", M: m, Name: "__gensym"},
 				symOp{Op: "sgensym", M: m, Name: "g"},
 				symOp{Op: "sgensym", M: m, Name: ""},
+				symOp{Op: "varsym", M: m, Name: "var"},
+				symOp{Op: "varsym", M: m, Name: "quote"},
 			)
 			if m < 2 {
 				alpha = append(alpha, symOp{Op: "dup", M: m}, symOp{Op: "clone", M: m})
@@ -213,6 +244,7 @@ func init() {
 					ops = append(ops, symOp{Op: "gensym", M: m, Name: pick(r, []string{"__gensym", "g", "__anon"})})
 				case 4:
 					ops = append(ops, symOp{Op: "sgensym", M: m, Name: pick(r, []string{"", "g"})})
+					ops = append(ops, symOp{Op: "varsym", M: m, Name: pick(r, []string{"var", "quote", "read", "joinsym"})})
 				case 5:
 					if members < 5 {
 						ops = append(ops, symOp{Op: pick(r, []string{"dup", "clone"}), M: m})
